@@ -87,7 +87,7 @@ func buildC10(tier string) sim.Scenario {
 		}
 		config.VerifSet(false, tp.Bool(), 5, dir)
 		media.VerifReset()
-		interval := []int64{40, 200, 500, 1000}[tp.Choose(4)]       // ms between video frames
+		interval := []int64{40, 200, 500, 1000}[tp.Choose(4)]                                      // ms between video frames
 		gop := []int64{1000, 2000, 4000, 7000, 2000, 4000, 7000, 9000, 1000, 12000}[tp.Choose(10)] // ms between key frames
 		total := int64(35000 + tp.Choose(25000))
 		audioGapFrom, audioGapTo := int64(-1), int64(-1)
